@@ -434,6 +434,7 @@ func (c *FnCtx) lookup(st *State, x *ssa.Lookup) {
 	a := &Addr{Space: "V", Key: key, Idx: []string{mv.S, k}, T: mt.Elem()}
 	stored := c.load(st, a)
 	c.assumeAllocated(st, stored)
+	c.sumFactsAtLookup(st, x.X.Type(), mv.S, k, present, stored)
 	zero := zeroVal(mt.Elem())
 	val := mergeVals(present, stored, zero)
 	if x.CommaOk {
@@ -498,8 +499,6 @@ func (c *FnCtx) mapDelete(st *State, mapType types.Type, m string, kv Val) {
 	c.heapSet(st, dn, sto2(d, m, k, "false"))
 }
 
-// ghostMapHook is the extension point for ghost sums over maps (see ghost.go).
-func (c *FnCtx) ghostMapHook(st *State, mapType types.Type, m, k, present string, v *Val, op string) {}
 
 // ---- range / next ------------------------------------------------------------------------
 
